@@ -225,6 +225,10 @@ def concretise(tprog, i):
     ftype = ["I", "J", "Ljava/lang/String;", "Z", "B", "C", "S"][i % 7]
     suffix = {"I": "", "J": "-wide", "Ljava/lang/String;": "-object", "Z": "-boolean", "B": "-byte", "C": "-char", "S": "-short"}[ftype]
     form = "si"[(i // 7) % 2]
+    strs = sorted({x["name"] for v in tprog.values() for x in map(dict, v) if x["op"] == "str"})
+    first_str = strs[0] if strs else None
+    # same-named fields of other types next to the accessed ones (sorting before and after them): never accessed, must stay without xrefs
+    decoys = [t for t in ("D", "[I") if t != ftype]
 
     def conv(ins):
         op, cls, name = ins["op"], ins["cls"], ins["name"]
@@ -240,8 +244,8 @@ def concretise(tprog, i):
             return dict(op=op, cls="", name="q%d:%s" % (i, name))
         return dict(op=op, cls=cname[cls], name="")
     code = {k: [conv(dict(x)) for x in v] for k, v in tprog.items()}
-    return dict(ns=ns, classes=[dict(name=cname["A"], fields=[("f", ftype)], methods=[dict(name="m()V", code=code[("A", "m")])]),
-                                 dict(name=cname["B"], fields=[("g", ftype)], methods=[dict(name="n()V", code=code[("B", "n")])])])
+    return dict(ns=ns, classes=[dict(name=cname["A"], fields=[("f", ftype)] + [("f", t) for t in decoys], methods=[dict(name="m()V", code=code[("A", "m")])]),
+                                 dict(name=cname["B"], fields=[("g", ftype)] + [("g", t) for t in decoys], methods=[dict(name="n()V", code=code[("B", "n")])])])
 
 
 def random_program(rnd, i, max_classes):
@@ -293,7 +297,7 @@ def random_program(rnd, i, max_classes):
                     how = rnd.choice(["s", "i"]) + ("get" if rd else "put") + suffix
                     ins = dict(op="rd" if rd else "wr", cls=cls, name=fn + ":" + ft, how=how)
                 elif r < 0.8:
-                    ins = dict(op="str", cls="", name="r%d:s%d" % (i, rnd.randrange(3)), how=rnd.choice(["const-string", "const-string/jumbo"]))
+                    ins = dict(op="str", cls="", name="" if rnd.random() < 0.15 else "r%d:s%d" % (i, rnd.randrange(3)), how=rnd.choice(["const-string", "const-string/jumbo"]))
                 else:
                     t = rnd.choice(names + [ns + "Ext;", "[" + rnd.choice(names), "[I", "[[" + ns + "Ext;"])
                     op = "cls" if t.startswith("[") else rnd.choice(["new", "cls"])
